@@ -38,13 +38,10 @@ def upperCase (s : List Char) : List Char := s.map toUpperC
 inductive Lang | c | go | py deriving DecidableEq, Repr
 inductive Kind | message | enum | alias | constant deriving DecidableEq, Repr
 
-/-- delimiter between enclosing message names and the own name (`delimer_inner_proto`):
-C concatenates; Python joins with `_`; Go concatenates messages and joins enums with `_` -/
+/-- delimiter between enclosing message names and the own name (`delimer_inner_proto`): `_` in every
+language; C and Go messages lose it again in the PascalCase conversion -/
 def delim : Lang → Kind → List Char
-  | .c, _ => []
-  | .py, _ => ['_']
-  | .go, .message => []
-  | .go, _ => ['_']
+  | _, _ => ['_']
 
 def joinWith (d : List Char) : List (List Char) → List Char
   | [] => []
